@@ -9,6 +9,7 @@ the flat program they were derived from.
 """
 import glob
 import os
+import re
 
 from hypothesis import strategies as st
 
@@ -33,8 +34,9 @@ ASSUMPTIONS = [
     "block tags have balanced quotes and no %} inside quoted strings (precondition of the property)",
     "{% include %} files in part 2 never contain {% slot %} tags (the repo's own tests document that slots inside includes are rejected in isolated mode)",
     "part 2 compares two real renders (family vs flat); the flat program's agreement with the reference interpreter is C01's subject",
+    "a block/include region never contains a print of the enclosing fill's default alias (such a region could re-enter itself; {% block %} is not re-entrant in stock Django)",
 ]
-BOUNDS = {"quick": {"stock": 2400, "compose": 900}, "thorough": {"stock": 40000, "compose": 15000}}
+BOUNDS = {"quick": {"stock": 7200, "compose": 3600}, "thorough": {"stock": 40000, "compose": 15000}}
 
 _PATCHED = {}
 
@@ -299,6 +301,11 @@ def compose_cases(draw):
             j = draw(st.integers(i + 1, len(lst)))
             region = lst[i:j]
             if any(y["t"] in ("block", "include") for y in pgstrat.walk(region)):
+                continue
+            if any(y["t"] == "var" and re.fullmatch(r"f\d+", y["n"]) for y in pgstrat.walk(region)):
+                # a region that prints the fill's default alias can re-enter ITSELF (slot default -> nested slot -> the
+                # same fill); Django's {% block %} is not re-entrant by design (BlockContext pop/push), so such a
+                # template has no flattened equivalent
                 continue
             op = draw(st.sampled_from(["keep", "override", "override", "super", "midsuper", "include"]))
             for sub, _d, _i in _node_lists(region):
